@@ -76,13 +76,16 @@ def gen_stmt(rng, current):
         return sql, "(mk_stmt (KSelect true) [])", "lib", current
     if r < 0.58:
         # reads catalog databases only
-        shape = rng.choice(["one", "join", "union", "sub", "where", "cte"])
+        shape = rng.choice(["one", "join", "union", "sub", "where", "cte", "scalar-sub"])
         a_sql, a_db, a_ldb, a_t = catalog_table(rng, current)
         b_sql, b_db, b_ldb, b_t = catalog_table(rng, current)
         ca, cb = CAT_COL[a_t], CAT_COL[b_t]
         if shape == "cte" and a_db is not None:
             # a CTE whose body reads a catalog table: the reference to the CTE itself is not a table of any database
             return (f"WITH c AS (SELECT {ca} FROM {a_sql}) SELECT {ca} FROM c", f"(mk_stmt (KSelect false) [{opt(a_db)}])", "lib", current)
+        if shape == "scalar-sub":
+            # no FROM of its own, but a subquery that reads a (catalog) table: not a static query - the catalog rule answers it
+            return f"SELECT (SELECT COUNT(*) FROM {a_sql}) AS n", f"(mk_stmt (KSelect false) [{opt(a_db)}])", "lib", current
         if shape in ("one", "cte"):
             return f"SELECT {ca} FROM {a_sql}", f"(mk_stmt (KSelect false) [{opt(a_db)}])", "lib", current
         if shape == "where":
@@ -94,10 +97,19 @@ def gen_stmt(rng, current):
         return (f"SELECT s.{ca} FROM (SELECT {ca} FROM {a_sql}) AS s", f"(mk_stmt (KSelect false) [{opt(a_db)}])", "lib", current)
     if r < 0.8:
         # application SELECTs: user tables, joins, subqueries, unions, mixed with catalog tables
-        shape = rng.choice(["one", "join", "sub", "union", "mixed-join", "mixed-sub", "cte"])
+        shape = rng.choice(["one", "join", "sub", "union", "mixed-join", "mixed-sub", "cte", "scalar-sub", "exists-sub", "where-in-sub", "scalar-mixed"])
         a_sql, a_db = user_table(rng, cur_cat)
         b_sql, b_db = user_table(rng, cur_cat)
         c_sql, c_db, _, c_t = catalog_table(rng, None)
+        # a SELECT without a FROM of its own whose subquery reads a user table reads a user table: the application's
+        if shape == "scalar-sub":
+            return f"SELECT (SELECT MAX(a) FROM {a_sql}) AS m", f"(mk_stmt (KSelect false) [{opt(a_db)}])", "app", current
+        if shape == "exists-sub":
+            return f"SELECT EXISTS (SELECT 1 FROM {a_sql} WHERE a = 1) AS e", f"(mk_stmt (KSelect false) [{opt(a_db)}])", "app", current
+        if shape == "where-in-sub":
+            return f"SELECT 1 WHERE 1 IN (SELECT a FROM {a_sql})", f"(mk_stmt (KSelect false) [{opt(a_db)}])", "app", current
+        if shape == "scalar-mixed":
+            return (f"SELECT (SELECT COUNT(*) FROM {c_sql}) + (SELECT MAX(a) FROM {a_sql}) AS s", f"(mk_stmt (KSelect false) [{opt(c_db)}; {opt(a_db)}])", "app", current)
         if shape == "one":
             return f"SELECT a FROM {a_sql} WHERE a > 1", f"(mk_stmt (KSelect false) [{opt(a_db)}])", "app", current
         if shape == "join":
